@@ -247,7 +247,7 @@ def execute(ctx):
         P.sim_sleep(0.3)
 
     verdict = sim.run(scenario)
-    if verdict[0] in ('deadlock', 'timeout'):
+    if verdict[0] in ('deadlock', 'timeout', 'livelock'):
         from simkit.harness import hang_signature
         sg, msg = hang_signature(verdict)
         ctx.violation('3', sg, msg, verdict[1])
